@@ -147,6 +147,10 @@ struct Family {
     cfg: fn(&Member, usize) -> (usize, usize, usize),
     /// minimal growth of allocated bytes between the scales that counts as proportional
     slack: fn(&[Member]) -> u64,
+    /// warm-up visits only member 0 (in every rate), which needs at least as much working space as any
+    /// other member by the documented layout (positions x ceil(bytes/64), bitmap positions); otherwise
+    /// the warm-up visits every member and the object holds whatever the implementation asked for
+    dominant_first: bool,
 }
 
 fn shard_family() -> Family {
@@ -165,6 +169,7 @@ fn shard_family() -> Family {
         cfg: |m, s| (m.k, m.r, if m.small { 66 * s } else { 32768 * s }),
         // half of one big shard at scale 1
         slack: |_| 16384,
+        dominant_first: false,
     }
 }
 
@@ -182,6 +187,7 @@ fn big_family() -> Family {
         ],
         cfg: |m, s| (m.k, m.r, if m.small { 4160 * s } else { 524288 * s }),
         slack: |_| 262144,
+        dominant_first: false,
     }
 }
 
@@ -199,6 +205,28 @@ fn count_family() -> Family {
         cfg: |m, s| (if m.small && m.k < 10 { m.k } else { m.k * s }, if m.small && m.k < 10 { m.r } else { m.r * s }, if m.small { 2 } else { 64 }),
         // a quarter of the bitmap growth of the biggest member (2048 extra positions / 8 bits = 256 bytes -> 64)
         slack: |_| 64,
+        dominant_first: false,
+    }
+}
+
+/// equal block counts with and without a short final block: member 0 (190-byte shards, 3 blocks) needs by
+/// the documented layout at least what every other member needs (192 bytes = 3 blocks, 128 = 2, ...), so
+/// after a warm-up with member 0 alone nothing may be allocated - an implementation that asks for one
+/// block more for sizes that are multiples of 64 would otherwise hide behind its own warm-up
+fn block_family() -> Family {
+    Family {
+        name: "block-count",
+        members: vec![
+            Member { k: 16, r: 16, small: false },
+            Member { k: 16, r: 16, small: true },
+            Member { k: 2, r: 9, small: true },
+            Member { k: 9, r: 2, small: true },
+            Member { k: 16, r: 5, small: true },
+            Member { k: 3, r: 3, small: false },
+        ],
+        cfg: |m, s| (m.k, m.r, if m.small { 192 * s } else { 190 * s }),
+        slack: |_| 64,
+        dominant_first: true,
     }
 }
 
@@ -231,8 +259,23 @@ fn run_history<E: Eng>(fam: &Family, decoder: bool, kind0: Kind, steps: &[Step],
     let mut dec: Option<AnyDec<E>> = None;
     // warm-up (not measured): visit every member in every rate so that the object holds the maximum
     let kinds: Vec<Kind> = if kind0 == Kind::Rs { vec![Kind::Rs] } else { vec![Kind::High, Kind::Low, Kind::Def, kind0] };
+    if fam.dominant_first {
+        // harness self-check: member 0 dominates by the documented layout in every kind
+        let (k0, r0, b0) = cfgs[0];
+        let dom = |kd: Kind| [Kind::High, Kind::Low].iter().map(|k0k| need(if kd == Kind::Rs || kd == Kind::Def { *k0k } else { kd }, decoder, k0, r0, b0)).fold((usize::MAX, usize::MAX), |a, n| (a.0.min(n.0), a.1.min(n.1)));
+        for &(k, r, b) in &cfgs[1..] {
+            for kd in [Kind::High, Kind::Low] {
+                let n = need(kd, decoder, k, r, b);
+                let d0 = dom(kd);
+                assert!(n.0 <= d0.0 && n.1 <= d0.1, "family {}: member ({k},{r},{b}) needs {n:?} in {kd:?}, more than member 0 holds {d0:?}", fam.name);
+            }
+        }
+    }
     for (ki, kd) in kinds.iter().enumerate() {
         for (mi, &(k, r, b)) in cfgs.iter().enumerate() {
+            if fam.dominant_first && mi > 0 {
+                continue;
+            }
             if decoder {
                 if ki == 0 && mi == 0 {
                     dec = Some(AnyDec::<E>::new(*kd, k, r, b, None).map_err(|e| format!("{e:?}"))?);
@@ -375,6 +418,8 @@ fn family_by_name(n: &str) -> Family {
         shard_family()
     } else if n == "big-shard-size" {
         big_family()
+    } else if n == "block-count" {
+        block_family()
     } else {
         count_family()
     }
@@ -434,13 +479,13 @@ pub fn run(ctx: &Ctx, rep: &mut Report) {
     let seed = ctx.seed;
     // tables are process-wide one-time allocations: touch them before anything is measured
     let _ = (&*reed_solomon_simd::engine::tables::LOG_WALSH, &*reed_solomon_simd::engine::tables::MUL16, &*reed_solomon_simd::engine::tables::MUL128, &*reed_solomon_simd::engine::tables::SKEW);
-    rep.rule = "case = (family, direction, start kind, engine, history of <= d steps over {round, abandoned round, reset to any member, recycle into {high,low,default} at any member}, closed by a completed round); the object first visits every member in every rate (not measured) so it holds the maximum; measured region = the history, executed at scale 1 and scale 2 (shard sizes doubled / counts doubled); bytes allocated there must not grow with the scale; non-trivial = histories containing a reset or recycle; distinct by (family,direction,kind,engine,history)".into();
+    rep.rule = "case = (family, direction, start kind, engine, history of <= d steps over {round, abandoned round, reset to any member, recycle into {high,low,default} at any member}, closed by a completed round); the object first visits every member in every rate (not measured) so it holds the maximum (family block-count: only the member that dominates by the documented layout, positions x ceil(bytes/64)); measured region = the history, executed at scale 1 and scale 2 (shard sizes doubled / counts doubled); bytes allocated there must not grow with the scale; non-trivial = histories containing a reset or recycle; distinct by (family,direction,kind,engine,history)".into();
     rep.assume("allocation = calls of the global allocator on the measuring thread (alloc, alloc_zeroed, growing realloc); shard data and result reading use borrowed slices only");
     rep.assume("criterion is growth with scale, so constant-size allocations of any size are never reported");
     let d = if ctx.thorough() { 3 } else { 2 };
     rep.bound("depth", J::i(d));
     let mut jobs: Vec<(&'static str, bool, Kind, &'static str, Vec<Step>)> = Vec::new();
-    for famname in ["shard-size", "shard-count", "big-shard-size"] {
+    for famname in ["shard-size", "shard-count", "big-shard-size", "block-count"] {
         let fam = family_by_name(famname);
         for decoder in [false, true] {
             for kind0 in [Kind::Rs, Kind::Def, Kind::High, Kind::Low] {
@@ -486,7 +531,7 @@ pub fn run(ctx: &Ctx, rep: &mut Report) {
     }
     rep.extra("largest_total_bytes_allocated_in_any_measured_region", J::i(max_total));
     // positive controls: growing beyond what is held must be seen by the monitor
-    for famname in ["shard-size", "shard-count", "big-shard-size"] {
+    for famname in ["shard-size", "shard-count", "big-shard-size", "block-count"] {
         let fam = family_by_name(famname);
         for decoder in [false, true] {
             match check_history(&fam, "nosimd", decoder, Kind::Def, &[Step::Grow, Step::Round], seed) {
@@ -495,7 +540,7 @@ pub fn run(ctx: &Ctx, rep: &mut Report) {
             }
         }
     }
-    rep.extra("positive_controls", J::s("growing reset reported as scale-proportional allocation in 6/6 controls"));
+    rep.extra("positive_controls", J::s("growing reset reported as scale-proportional allocation in 8/8 controls"));
     for i in [0, jobs.len() / 3, jobs.len() / 2, jobs.len() - 1] {
         let (famname, decoder, kind0, eng, h) = &jobs[i];
         rep.sample(Kv::new().with("family", famname).with("eng", eng).with("dir", if *decoder { "dec" } else { "enc" }).with("kind", kind0.name()).with("steps", fmt_steps(h)).dump());
